@@ -286,7 +286,7 @@ func (p *Parser) parseBetweenExpression(left Expression) Expression {
 		return nil
 	}
 
-	expression.Range[0] = p.parseIdentifier()
+	expression.Range[0] = p.parseBetweenOperand()
 
 	if !p.expectPeek(AND) {
 		return nil
@@ -298,9 +298,28 @@ func (p *Parser) parseBetweenExpression(left Expression) Expression {
 		return nil
 	}
 
-	expression.Range[1] = p.parseIdentifier()
+	expression.Range[1] = p.parseBetweenOperand()
 
 	return expression
+}
+
+// parseBetweenOperand parses a bound of BETWEEN: a name or placeholder followed
+// by any number of .member and [index] steps (a bound may be a document path)
+func (p *Parser) parseBetweenOperand() Expression {
+	operand := p.parseIdentifier()
+
+	for p.peekTokenIs(DOT) || p.peekTokenIs(LBRACKET) {
+		infix := p.infixParseFns[p.peekToken.Type]
+		if infix == nil {
+			return operand
+		}
+
+		p.nextToken()
+
+		operand = infix(operand)
+	}
+
+	return operand
 }
 
 func (p *Parser) parseInExpression(left Expression) Expression {
